@@ -1,6 +1,6 @@
 (* Property C03 — Interest and Data packets survive encode->decode unchanged for all field values.
    Only theorem statements closed by `exact`, each followed by Print Assumptions. *)
-From Packet Require Import Model Spec ReadersProofs EncProofs DecGeneric DecProofs DecData EncData Roundtrip.
+From Packet Require Import Model Spec ReadersProofs EncProofs DecGeneric DecProofs DecData DecInterest EncData EncInterest Roundtrip.
 From Names Require Import Order.
 Open Scope N_scope.
 Arguments ROk {A}.
@@ -33,6 +33,32 @@ Theorem segmentation_irrelevant_data : forall sign nm cfg content sg si est e,
       concat c1 = concat (e_cov e) /\ concat c2 = concat (e_cov e).
 Proof. exact data_any_reader. Qed.
 Print Assumptions segmentation_irrelevant_data.
+
+(* Interest.  For every name (a trailing ParametersSha256Digest component is managed by the API: `strip_digest`), every
+   subset of CanBePrefix/MustBeFresh/ForwardingHint/Nonce/Lifetime/HopLimit, parameters as any list of buffers (or none),
+   every signer admitted by MakeInterest (estimate < 253): if MakeInterest returns a wire then, through any reader over the
+   joined bytes, ReadInterest returns exactly the final name, fields, parameters, SignatureInfo and signature value; with
+   parameters the final name ends in the SHA-256 of the parameters element and everything after it (sha256 is an arbitrary
+   32-byte-valued function); for a signed Interest the covered bytes reported by the parser are those handed to the signer.
+   Additional hypotheses: no ParametersSha256Digest component elsewhere in the name when there are no parameters (such an
+   Interest is rejected on decode), forwarding-hint names well formed, lifetime a whole non-negative number of milliseconds,
+   signature time non-negative and within int64 nanoseconds. *)
+Theorem interest_roundtrip : forall (sha256 : bytes -> bytes), (forall x, length (sha256 x) = 32%nat) ->
+  forall sign nm cfg app sg si est e,
+  let need := match app with Some _ => true | None => false end in
+  let pre := strip_digest nm in
+  let nm1 := if need then pre ++ [mkc 2 zeros32] else pre in
+  int_siginfo sg need = Ok (si, est) -> name_ok pre -> (app = None -> existsb is_digest_comp pre = false) ->
+  iconfig_ok cfg -> signer_ok sg -> signer_int_ok sg -> int_fits nm1 cfg app si est ->
+  make_interest sha256 sign nm cfg app sg = Ok e ->
+  exists svo, (est = 0 -> svo = None) /\ (0 < est -> sign (e_cov e) = svo /\ exists s, svo = Some s /\ blen s <= est) /\
+    e_final e = (if need then pre ++ [mkc 2 (sha256 (enc_elems (int_tail_elems (option_map (@concat N) app) si svo)))] else pre) /\
+    concat (e_wire e) = enc_elem (5, IV (e_final e) cfg app si svo) /\
+    forall r, View r (concat (e_wire e)) 0 ->
+      exists i cov, read_interest sha256 r = ROk i cov /\ obs_int i = expected_int (e_final e) cfg app sg svo /\
+                    (0 < est -> concat cov = concat (e_cov e)).
+Proof. exact interest_roundtrip_thm. Qed.
+Print Assumptions interest_roundtrip.
 
 (* The reader refinement itself: every view of a reader kind is a view (used above for both). *)
 Theorem readers_view : forall (b : bytes) (segs : list bytes),
